@@ -48,6 +48,9 @@ def cases(tier, seed):
                 for rand in (False, True):
                     yield f"api/{in_memory}/{npri}/{K}/{rand}", {"level": "api", "in_memory": in_memory, "npri": npri, "K": K, "rand": rand,
                                                                   "seed": int(seed) + 11, "nlin": 1}
+    # call history on ONE library object: used once in memory, then re-ordered in place through the public API, then used again
+    for K in (None, 2):
+        yield f"api/history/{K}", {"level": "api", "in_memory": True, "npri": None, "K": K, "rand": False, "seed": int(seed) + 11, "nlin": 1, "history": True}
 
 
 def nontrivial(inp):
@@ -208,8 +211,17 @@ def _check_api(inp):
     N = len(lib)
     rng = S.RecordingGenerator(inp["seed"])
     joker = TheJoker(prior, rng=rng)
+    if inp.get("history"):
+        lib = lib.copy()
+        TheJoker(prior, rng=np.random.default_rng(1)).rejection_sample(data, lib, in_memory=True, return_logprobs=True)
+        TheJoker(prior, rng=np.random.default_rng(1)).marginal_ln_likelihood(data, lib, in_memory=True)
+        for nm in list(lib.par_names):
+            lib[nm] = lib[nm][::-1]
+        ref = lib.copy()        # a fresh object holding the re-ordered rows: the reference
+    else:
+        ref = lib
     src = lib if inp["in_memory"] else path
-    lls_all = TheJoker(prior, rng=np.random.default_rng(0)).marginal_ln_likelihood(data, lib, in_memory=True)
+    lls_all = TheJoker(prior, rng=np.random.default_rng(0)).marginal_ln_likelihood(data, ref, in_memory=True)
     res = joker.rejection_sample(data, src, n_prior_samples=inp["npri"], max_posterior_samples=inp["K"], n_linear_samples=inp["nlin"],
                                  return_logprobs=True, return_all_logprobs=True, randomize_prior_order=inp["rand"],
                                  in_memory=inp["in_memory"], n_batches=3)
@@ -240,13 +252,13 @@ def _check_api(inp):
     good = _expected([float(x) for x in all_ll], uu, inp["K"])
     want_rows = [order[k] for k in good]
     for name in ("P", "e", "omega", "M0"):
-        want = lib[name][want_rows]
+        want = ref[name][want_rows]
         got = samples[name]
         if len(got) != len(want) or not np.array_equal(got.to_value(want.unit), want.value):
             bad("accepted-rows", column=name, got=got, want=want)
             return fails
     lp = np.asarray(samples["ln_prior"])
-    if lp.dtype.kind != "f" or not np.array_equal(lp, np.asarray(lib["ln_prior"])[want_rows]):
+    if lp.dtype.kind != "f" or not np.array_equal(lp, np.asarray(ref["ln_prior"])[want_rows]):
         bad(f"ln_prior-own-row[{tag}]", dtype=str(lp.dtype))
     if not np.allclose(np.asarray(samples["ln_likelihood"]), np.array(lls_eval)[good], rtol=0, atol=1e-9):
         bad("ln_likelihood-own-row")
